@@ -25,6 +25,7 @@ import (
 	"io"
 	"os"
 	"path/filepath"
+	"reflect"
 	"sort"
 	"strconv"
 	"strings"
@@ -75,15 +76,42 @@ type v06Head struct {
 	Ts   int64  `json:"ts"`
 }
 
-// stream-level configurations used by the behaviours, by id
+// stream-level configurations used by the behaviours, by id.  "k1" sets EVERY field of
+// proto.StreamConfig to a non-default value (the fields are enumerated by reflection, so a
+// field added later is included automatically): a snapshot / replay path that drops any
+// field changes the marshalled bytes and therefore the id the driver projects.
 func v06Config(id string) *proto.StreamConfig {
-	if id == "k1" {
-		return &proto.StreamConfig{MinIsr: &proto.NullableInt32{Value: 2},
-			OptimisticConcurrencyControl: &proto.NullableBool{Value: true},
-			RetentionMaxMessages:         &proto.NullableInt64{Value: 1000}}
+	if id != "k1" {
+		return nil
 	}
-	return nil
+	c := &proto.StreamConfig{}
+	v := reflect.ValueOf(c).Elem()
+	for i := 0; i < v.NumField(); i++ {
+		f, name := v.Field(i), v.Type().Field(i).Name
+		if strings.HasPrefix(name, "XXX_") {
+			continue
+		}
+		switch f.Interface().(type) {
+		case *proto.NullableInt64:
+			// sizes / counts: large; durations (nanoseconds): about an hour - nothing fires, nothing rolls
+			val := int64(1<<26) + int64(i)
+			if !strings.Contains(name, "Bytes") && !strings.Contains(name, "Messages") {
+				val = int64(time.Hour) + int64(i)
+			}
+			f.Set(reflect.ValueOf(&proto.NullableInt64{Value: val}))
+		case *proto.NullableInt32:
+			f.Set(reflect.ValueOf(&proto.NullableInt32{Value: 2})) // MinIsr 2 = MinIsrOf("k1") of the model
+		case *proto.NullableBool:
+			f.Set(reflect.ValueOf(&proto.NullableBool{Value: true}))
+		default:
+			panic("v06Config: proto.StreamConfig." + name + " has a type this harness does not know - extend v06Config")
+		}
+	}
+	return c
 }
+
+// encrypted streams (k1 switches Encryption on) need the master key
+func init() { os.Setenv("LIFTBRIDGE_ENCRYPTION_KEY", "0123456789abcdef0123456789abcdef") }
 
 // v06ConfigID names the configuration a stream really carries
 func v06ConfigID(c *proto.StreamConfig) string {
@@ -116,12 +144,13 @@ type v06SnapGroup struct {
 }
 
 type v06Ref struct {
-	Has    bool                    `json:"has"`
-	Idx    uint64                  `json:"idx"`
-	Live   []string                `json:"live"`
-	Frozen map[string][]v06Proto   `json:"frozen"`
-	Heads  map[string]v06Head      `json:"heads"`
-	Groups map[string]v06SnapGroup `json:"groups"`
+	Has     bool                    `json:"has"`
+	Idx     uint64                  `json:"idx"`
+	Live    []string                `json:"live"`
+	Frozen  map[string][]v06Proto   `json:"frozen"`
+	Heads   map[string]v06Head      `json:"heads"`
+	Groups  map[string]v06SnapGroup `json:"groups"`
+	LastPub uint64                  `json:"lastPub"` // activity index captured by Snapshot()
 }
 
 type v06Snap struct {
@@ -130,6 +159,7 @@ type v06Snap struct {
 	Streams map[string][]v06Proto   `json:"streams"`
 	Heads   map[string]v06Head      `json:"heads"`
 	Groups  map[string]v06SnapGroup `json:"groups"`
+	LastPub uint64                  `json:"lastPub"`
 }
 
 type v06State struct {
@@ -459,6 +489,7 @@ func (r *v06Run) sref() v06Ref {
 		return ref
 	}
 	ref.Has, ref.Idx = true, r.pendingIdx
+	ref.LastPub = r.pending.GetLastPublishedRaftIndex()
 	for _, ps := range r.pending.Streams {
 		ref.Heads[ps.Name] = v06HeadOf(ps)
 		live := false
@@ -501,6 +532,7 @@ func (r *v06Run) snap() v06Snap {
 		sn.Heads[ps.Name] = v06HeadOf(ps)
 	}
 	sn.Groups = v06SnapGroups(ms.Groups)
+	sn.LastPub = ms.GetLastPublishedRaftIndex()
 	return sn
 }
 
